@@ -115,6 +115,7 @@ StepTainted ==
   /\ TaintedEv
   /\ LET q == e.q
          gone == e.op \in {"drop", "forget_queue"} \/ e.kind = "none"
+         \* (clone_into: the source q is untouched; a completed clone lives in queue e.to and is dropped at the end)
          prev == IF e.op = "clone" /\ e.src \in DOMAIN con THEN con[e.src] ELSE IF q \in DOMAIN con THEN con[q] ELSE Empty
          r == Apply(IF e.op = "convert" THEN Other(e.kind) ELSE e.kind, prev, OpOfEvent, FuelOfFault)
          cmp == e.hs = 1 /\ ~NoDrift /\ TablesOK(prev) /\ e.op \in Modelled /\ e.op \notin {"from_vec", "from_iter", "de", "roundtrip"}
